@@ -130,9 +130,15 @@ void DecodingTableBuilder::insertDecodeableSubstr(
     if (bits > TABLEBITSO)
       *ptr += (bits - TABLEBITSO);
 
+    // The symbol closes the chunk and joins its substring, unless this one
+    // is full: a table entry describes up to MAXSUBSTR symbols (a chunk of 16
+    // one-bit codewords is split, so, in 15 symbols plus a pending one)
+    bool fits = (*ptr == TABLEBITSO) && (bits <= TABLEBITSO) &&
+                (substr->size() < MAXSUBSTR);
+
     if ((substr->size() > 0) && (tableSubstr[index].dbits <= 1)) {
       // This substring has not been previously indexed
-      if ((*ptr == TABLEBITSO) && (bits <= TABLEBITSO)) {
+      if (fits) {
         // The encoded symbol is fully represented in
         // the current chunk
         substr->push_back(symbol);
@@ -194,7 +200,7 @@ void DecodingTableBuilder::insertDecodeableSubstr(
         substr->clear();
         lenSubstr->clear();
 
-        if ((*ptr == TABLEBITSO) && (bits <= TABLEBITSO))
+        if (fits)
           *ptr = 0;
         else {
           *ptr = bits;
